@@ -4,39 +4,51 @@
    MOSN's encoder (pkg/module/http2/hpack) feeding golang.org/x/net's decoder, and x/net's encoder feeding
    MOSN's decoder.  The bytes of every header block are parsed into representations by the driver's own
    RFC 7541 reader, so that this module can run the specification's decoder on what really travelled.
-     case{dir}                 new encoder/decoder pair; dir = "m2x" | "x2m"
+     case{dir,limit}           new encoder/decoder pair; dir = "m2x" | "x2m"; limit = the receiver's header-list limit
+                               (1000000 = none: the block is written straight into the decoder).  With a limit the
+                               block travels as HEADERS + CONTINUATION: x2m  MOSN's MFramer.ReadFrame with
+                               MaxHeaderListSize = limit reads it (the production receiver: readMetaFrame mutes the
+                               decoder); m2x  x/net's decoder behind the driver's transcription of RcvOne (x/net's own
+                               Framer closes the connection on an oversized list as a matter of policy)
      set{v}                    the decoder's side announces SETTINGS_HEADER_TABLE_SIZE = v
                                (decoder.SetAllowedMaxDynamicTableSize, encoder.SetMaxDynamicTableSize)
-     blk{in,wire,out,err,perr,enc,dec}
+     blk{in,wire,out,verdict,err,perr,enc,dec}
                                one header block: the list handed to the encoder, the representations on the wire,
-                               what the real decoder emitted (fed in two pieces), its error, the wire reader's
-                               error, and the dynamic tables of MOSN's side(s) read through the verif accessors
-                               (has = FALSE for the x/net side, which has no accessor) *)
+                               what the real decoder emitted / the receiver handed on (fed in two pieces), the
+                               receiver's verdict ("" without a limit | "ok" | "truncated" | "malformed" = stream
+                               error), the error that ends the connection, the wire reader's error, and the dynamic
+                               tables of MOSN's side(s) read through the verif accessors (has = FALSE for the x/net
+                               side, which has no accessor) *)
 EXTENDS Hpack, VTrace
 
-VARIABLES tab, tmax, allowed, tpend
-tvars == <<vars, tab, tmax, allowed, tpend, l>>
+VARIABLES tab, tmax, allowed, tpend, tlimit
+tvars == <<vars, tab, tmax, allowed, tpend, tlimit, l>>
 
-TraceInit == /\ Init /\ l = 1 /\ tab = <<>> /\ tmax = 4096 /\ allowed = 4096 /\ tpend = Inf
+TraceInit == /\ Init /\ l = 1 /\ tab = <<>> /\ tmax = 4096 /\ allowed = 4096 /\ tpend = Inf /\ tlimit = Inf
 
 TCase == /\ IsEvent("case")
-         /\ tab' = <<>> /\ tmax' = 4096 /\ allowed' = 4096 /\ tpend' = Inf
+         /\ tab' = <<>> /\ tmax' = 4096 /\ allowed' = 4096 /\ tpend' = Inf /\ tlimit' = Ev.limit
          /\ UNCHANGED vars
 
 TSet == /\ IsEvent("set")
         /\ allowed' = Ev.v /\ tpend' = Min(tpend, Ev.v)
-        /\ UNCHANGED <<vars, tab, tmax>>
+        /\ UNCHANGED <<vars, tab, tmax, tlimit>>
 
 TabOK(side, d) == side.has => /\ side.tab = d.tab
                               /\ side.max = d.max
                               /\ side.size = TabSize(d.tab)
 
 TBlk == /\ IsEvent("blk")
-        /\ LET d == DecodeWire(Ev.wire, tab, tmax, allowed) IN
+        /\ LET d == DecodeWire(Ev.wire, tab, tmax, allowed, tlimit)
+               \* what has to come out: without a receiver the list itself; with one what RcvOne collects, nothing
+               \* when the block is refused with a stream error - and in every case the table moves on (d.tab below)
+               want == IF tlimit = Inf THEN Ev.in ELSE IF Verdict(d.rcv) = "malformed" THEN <<>> ELSE d.rcv.got
+           IN
              /\ Expect(Ev.perr = "", "wire-unreadable")
              /\ Expect(d.ok, "wire-invalid-for-the-shared-table")
              /\ Expect(Ev.err = "", "decoder-rejected-block")
-             /\ Expect(SameList(Ev.out, Ev.in), "decoded-list-differs")
+             /\ Expect(tlimit = Inf \/ ~d.ok \/ Ev.err # "" \/ Ev.verdict = Verdict(d.rcv), "block-verdict-differs")
+             /\ Expect((tlimit # Inf /\ ~d.ok) \/ SameList(Ev.out, want), "decoded-list-differs")
              /\ Expect(~d.ok \/ SameList(d.out, Ev.in), "wire-means-another-list")
              /\ Expect(SensitiveOK(Ev.wire, Ev.in, Ev.out), "sensitive-field-indexed")
              /\ Expect(d.max <= allowed, "table-larger-than-announced-size")
@@ -44,7 +56,7 @@ TBlk == /\ IsEvent("blk")
              /\ Expect(~d.ok \/ TabOK(Ev.enc, d), "encoder-table-differs")
              /\ Expect(~d.ok \/ Ev.err # "" \/ TabOK(Ev.dec, d), "decoder-table-differs")
              /\ tab' = d.tab /\ tmax' = d.max /\ tpend' = Inf
-        /\ UNCHANGED <<vars, allowed>>
+        /\ UNCHANGED <<vars, allowed, tlimit>>
 
 TraceNext == TCase \/ TSet \/ TBlk
 TraceSpec == TraceInit /\ [][TraceNext]_tvars
